@@ -90,7 +90,7 @@ PROPS = {
     "C09": {
         "level": "exploration",
         "steps": [("py", "c09", "run"), ("py", "livefix", "run_c09")],
-        "rule": "histories over three documents (saved file, Markdown file, untitled buffer) of didOpen / didChange / didSave / didClose / add-to-dictionary / didChangeConfiguration / "
+        "rule": "histories over three documents (saved file, Markdown file, untitled buffer) of didOpen / didChange (a new text, or the old text with a paragraph of link reference definitions for its bracketed words added / removed) / didSave / didClose / add-to-dictionary / didChangeConfiguration / "
                 "didChangeWatchedFiles(Deleted), checked after every step at quiescence (publishes counted, no configuration request outstanding); batches of 2-4 didChange sent back-to-back "
                 "with all workspace/configuration replies held and then released in a chosen permutation (quick: sampled, thorough: enumerated), the completion order read back from the "
                 "publishes; expected = reference server on the newest client text under current dictionaries / settings; didChange notifications with several content changes (the last one is the text) and code actions requested while a change is in flight (answer = quiet answer for the old or the new text); distinct = history shapes + (batch size, reply order) schedules realised",
@@ -175,7 +175,7 @@ PROPS = {
     "C13": {
         "level": "exploration",
         "steps": [("hv", "C13x", {}), ("hv", "C13s", {"_scale": 0.5}), ("hv", "wasmapi", {}), ("hv", "wasme2e", {"_scale": 2.5}), ("hv", "cli", {}), ("py", "san", "miri", "thorough_only")],
-        "rule": "(a) exhaustive: all lists of <= 4 spans over positions 0..5 (21 spans); random lists up to 200 spans; "
+        "rule": "(a) exhaustive: all lists of <= 4 spans over positions 0..5 (21 spans); random lists up to 200 spans; every list once with rising importance values and once with falling, equal or mixed ones (63, 127, 31); "
                 "(b) every lint list of the C01 document stream; clauses: output is a sub-multiset, kept lints pairwise disjoint, each "
                 "dropped lint starts inside a kept one; then fixes applied back to front == any order with offset bookkeeping; "
                 "(c) what the JS API reports (harper_wasm::Linter::lint: pairwise no common character, one-pass back-to-front fix through apply_suggestion) and what harper-cli lint "
@@ -186,7 +186,7 @@ PROPS = {
     "C19": {
         "level": "exploration",
         "steps": [("hv", "C19", {"_scale": 5.0}), ("py", "c19ls", "run")],
-        "rule": "record lists produced by the real producer (RecordKind::from_lint on documents with newlines, quotes, control, LS/PS and astral characters, extreme numbers) and "
+        "rule": "every word of the curated dictionary once as a captured token with its metadata; record lists produced by the real producer (RecordKind::from_lint on documents with newlines, quotes, control, LS/PS and astral characters, extreme numbers) and "
                 "configuration-update records, in 1-4 append batches through Stats::write (memory and a file opened in append mode) and through the JS API "
                 "(generate_stats_file / import_stats_file); checks read(write(R1)++write(R2)) == R1++R2, one line per record, summarize counts each lint record once; "
                 "non-trivial = >= 2 records; distinct = history seed",
@@ -333,7 +333,7 @@ META = {
     "C19": {
         "engine": "E1-hv, E2-lsp",
         "design_ref": "DESIGN.md §5 C19",
-        "technique": "runtime monitoring: round-trip and append-composition monitor on records made by the real producer, in memory, through an append-mode file and through the JS API",
+        "technique": "runtime monitoring: round-trip and append-composition monitor on records made by the real producer (and one pass over every word of the curated dictionary as a captured token with its metadata), in memory, through an append-mode file and through the JS API",
         "level_text": "Exploration of inputs and append histories: ~30 k record lists per quick run.",
         "level_note": "Trusted: Record's derived PartialEq as the meaning of 'the same records'.",
     },
